@@ -216,9 +216,21 @@ def _uri_values(style):
     return (
         value
         for prop in style.getProperties(all=True)
-        for value in prop.propertyValue
+        for value in _values(prop.propertyValue)
         if value.type == 'URI'
     )
+
+
+def _values(values):
+    """
+    Yield `values` and, after a function, the values which are its arguments.
+    """
+    for value in values:
+        yield value
+        if value.type == value.FUNCTION:
+            yield from _values(
+                item.value for item in value.seq if isinstance(item.value, css.Value)
+            )
 
 
 _flatten = itertools.chain.from_iterable
